@@ -51,3 +51,10 @@ func C26SetConnected(pl *C26Player, server RegisteredServer, backend netmc.Minec
 func C26Responder(px *Proxy, pl *C26Player) bungeecord.MessageResponder {
 	return newBungeeCordMessageResponder(true, pl.p, px)
 }
+
+// C26ListOnServer adds the player to server's player list WITHOUT touching its connected server: the window of a
+// server switch in which the player is already connected to the new server while the old server's session handler
+// has not yet removed it from the old list.
+func C26ListOnServer(pl *C26Player, server RegisteredServer) {
+	server.(*registeredServer).players.add(pl.p)
+}
